@@ -31,7 +31,9 @@ PROP = {
              "was installed, small maximum windows (40..440 packets) to reach the upper clamp; loss detection by packet "
              "(3) and time (9/8 RTT) threshold, event lists ascending and never both empty, ACK events >=10 us apart. "
              "progress: loss-free fixed-capacity links x 3 profiles (WAN links 1..500 Mbit/s x 5..300 ms for 20 virtual seconds; "
-             "short-RTT fast paths 1..10 Gbit/s x 0.1..1.9 ms, BDP >> initial window, for 0.2..0.8 virtual seconds), queue >= BDP, second-half goodput "
+             "short-RTT fast paths 1..10 Gbit/s x 0.1..1.9 ms, BDP >> initial window, for 0.2..0.8 virtual seconds; timer-paced fast paths 200 Mbit/s..2.5 Gbit/s x 5..30 ms with ACK every 2 / every 10 "
+             "packets / ACK bursts every quarter or half RTT, 0.25..4 virtual seconds, the send loop woken between ACKs only by "
+             "TimeUntilSend), queue >= BDP, second-half goodput "
              "vs capacity and quiescence-with-data (deadlock) check; runs with a queue drop are excluded and counted. "
              "resume: the same loss-free links with a scripted application: bulk -> application-limited at 2/4/20 % of capacity "
              "for 3/12/40 round trips -> bulk (A), application-limited from the first packet -> bulk (B), on/off bursts -> bulk (C); "
